@@ -2,6 +2,7 @@
 
 import logging
 from collections.abc import Mapping
+from copy import copy
 from io import BufferedReader, StringIO
 from pathlib import Path
 from typing import Any, NewType, Self
@@ -222,7 +223,7 @@ class KSKMConfig(FrozenBaseModel):
         _config = dict(config)  # do not modify the caller's data
         if "ksk_policy" in _config and "signature_policy" not in _config["ksk_policy"]:
             # put everything except ttl and signers_name into signature_policy
-            _old_ksk_policy = _config.get("ksk_policy", {})
+            _old_ksk_policy = copy(_config.get("ksk_policy", {}))
             _new_ksk_policy: dict[str, Any] = {}
             # move ttl and signers_name to top level
             for _move in ["ttl", "signers_name"]:
@@ -246,6 +247,7 @@ class KSKMConfig(FrozenBaseModel):
         ):
             # Replace with the value configured to be used when signing the bundles
             # (ksk_policy.ttl is optional: fall back to its default when the section does not set it)
+            _config["request_policy"] = copy(_config["request_policy"])
             _config["request_policy"]["dns_ttl"] = _config["ksk_policy"].get(
                 "ttl", KSKPolicy.model_fields["ttl"].default
             )
